@@ -306,7 +306,7 @@ def check_tree(ctx, case, tree, spec, ref: Ref, soma_ok: bool):
 
 def exec_tree(ctx, case):
     spec = G.spec_from_recipe(case["tree"])
-    tree = G.build(spec, with_tag=False)
+    tree = G.build(spec, with_tag=False, frozen_ok=True)
     n = len(spec["pid"])
     xyz = np.stack([spec["x"], spec["y"], spec["z"]], axis=1)
     ref = Ref(spec["pid"], xyz)
@@ -331,7 +331,7 @@ def exec_population(ctx, case):
     trees, refs = [], []
     for rc in case["trees"]:
         spec = G.spec_from_recipe(rc)
-        trees.append(G.build(spec, with_tag=False))
+        trees.append(G.build(spec, with_tag=False, frozen_ok=True))
         refs.append(Ref(spec["pid"], np.stack([spec["x"], spec["y"], spec["z"]], axis=1)))
     with warnings.catch_warnings():
         warnings.simplefilter("ignore")
@@ -421,7 +421,7 @@ def run(ctx):
 
     rng = ctx.rng
     tap = probes.CallTap({"sholl_get": Sholl.get, "features_get": Features.get})
-    geoms = ["growth", "gauss", "far", "int", "pythag", "pythag", "coincident", "axis", "big",
+    geoms = ["growth", "plane", "gauss", "far", "int", "pythag", "pythag", "coincident", "axis", "big",
              "tiny", "micro"]
     with tap:
         for k in range(ctx.scale(900, 18000)):
